@@ -12,10 +12,15 @@ status and the list of datasets handed to the writer.
   no bare quote, time field readable in the configured format, every value parsable for its bucket
   column type) and EVERY chunk size k ≥ 1: status ok, and the datasets concatenated are exactly
   the parsed rows of all records, in order; no dataset is empty or longer than k.
-* the full statement (`C33_full`) is false of the code: a record with a wrong field count (or any
-  other reader error) is taken for the end of the input (`C33_cex_silent`), an unreadable time
-  field makes the loader dereference nil (`C33_cex_panic`); with the "tuning" of the time format
-  the outcome even depends on the chunk size (`C33_cex_chunk_dependent`).
+* `C33_full` (∀ configuration, header, records, chunk size ≥ 1 — no well-formedness at all): the
+  loader never panics, and status ok implies that every data row was handed to the writer.
+  `C33_malformed_reported`: a record with a wrong field count or a bare quote is reported.
+* Four statements of the loader are read off the regenerated skeletons by the model
+  (`readerErrorReported`, `timeErrorReported`, `timestampUsesDefaultZone`, `fixupBoundsChecked`) and
+  pinned here (`skel_CSVtoNumpyMulti`, `skel_convertCSVtoCSM`, `code_variants`): before the repairs
+  ("fix: report malformed CSV records…", "fix: return an error when the CSV time columns…",
+  "fix: default to UTC for timeFormat timestamp…", "fix: reject a time field shorter…") a reader
+  error was taken for the end of the input and the three time problems crashed the client.
 -/
 namespace Mkts.Props.C33
 open Mkts.Csv
@@ -66,70 +71,79 @@ theorem C33_row_values (cfg : Config) (n : Nat) (idx : List Nat) (r : Rec) (h : 
       simp only [rowOf, List.mem_map]
       exact ⟨ci, hci, by rw [hv]; rfl⟩
 
-/-! ## the general form of the silent truncation -/
+/-! ## the tie to the source -/
 
-/-- For EVERY file of the shape (well-formed records) ++ [record with a wrong field count or a bare
-    quote] ++ (anything at all) and every chunk size: the load ends with status ok, and what was
-    handed to the writer is exactly the rows before the malformed record.  The malformed record and
-    everything after it are dropped without an error. -/
-theorem C33_truncation (cfg : Config) (header : Rec) (good : List Rec) (bad : Rec) (rest : List Rec)
+/-- `CSVtoNumpyMulti` of the current source (regenerated skeleton): inside the read loop only io.EOF
+    ends the input, any other reader error is returned -/
+theorem skel_CSVtoNumpyMulti :
+    Mkts.Extracted.Skel.cmd_connect_loader_CSVtoNumpyMulti =
+      ["call:log.Info", "for{", "call:csvReader.Read", "call:errors.Is", "if:errors.Is(err2, stdio.EOF){", "break",
+       "}", "if:err2 != nil{", "call:fmt.Errorf", "return", "}", "}",
+       "if:len(csvChunk) == 0{", "return", "}", "call:log.Info", "call:convertCSVtoCSM", "if:err != nil{",
+       "return", "}", "if:!isVariable{", "call:csm[tbk].Remove", "if:err != nil{", "call:fmt.Sprintf",
+       "call:log.Info", "}", "}", "call:io.NewNumpyDataset", "if:err != nil{", "return",
+       "}", "call:io.NewNumpyMultiDataset", "if:err != nil{", "call:fmt.Errorf", "return", "}",
+       "return"] := by decide
+
+/-- `convertCSVtoCSM`: nil time columns are an error -/
+theorem skel_convertCSVtoCSM :
+    Mkts.Extracted.Skel.cmd_connect_loader_convertCSVtoCSM =
+      ["call:readTimeColumns", "if:epochCol == nil{", "call:log.Error", "call:fmt.Errorf", "return", "}",
+       "call:io.NewColumnSeriesMap", "call:csmInit.AddColumn", "call:columnSeriesMapFromCSVData", "if:err != nil{",
+       "call:fmt.Errorf", "return", "}", "call:csm.AddColumn", "return"] := by decide
+
+/-- the four variants the model reads off the skeletons, as they are in the current source
+    (`parseTime`: `Time.In(tz)` with the defaulted zone; guarded `formatFixupState`) -/
+theorem code_variants :
+    readerErrorReported = true ∧ timeErrorReported = true ∧ timestampUsesDefaultZone = true ∧
+    fixupBoundsChecked = true :=
+  ⟨code_reports_reader_errors, code_reports_time_errors, code_timestamp_default_zone, code_checks_fixup_bounds⟩
+
+/-! ## the full statement -/
+
+/-- C33 as stated, for ARBITRARY configuration, header, records and chunk size: the loader never
+    crashes, and whenever no error is reported every data row (non-blank record) has been handed to
+    the writer. -/
+theorem C33_full (cfg : Config) (header : Rec) (records : List Rec) (k : Nat) (hk : 1 ≤ k) :
+    (load cfg header records k).status.isPanic = false ∧
+    ((load cfg header records k).status = .ok →
+      ((load cfg header records k).chunks.map List.length).sum = dataRows records) := by
+  unfold load
+  cases readMetadata cfg header with
+  | none => exact ⟨rfl, fun h => by cases h⟩
+  | some p =>
+    obtain ⟨e, idx⟩ := p
+    simp only []
+    by_cases he : (e != 0) = true
+    · simp only [he, if_true]
+      exact ⟨rfl, fun h => by cases h⟩
+    · simp only [he, Bool.false_eq_true, if_false]
+      exact loadLoop_any cfg header.length e idx k hk _ records
+
+/-- a malformed record (wrong field count or bare quote) after well-formed ones is REPORTED, for
+    every chunk size; what was handed to the writer before is a prefix of the well-formed rows -/
+theorem C33_malformed_reported (cfg : Config) (header : Rec) (good : List Rec) (bad : Rec) (rest : List Rec)
     (idx : List Nat) (k : Nat) (hk : 1 ≤ k) (hcfg : GoodCfg cfg)
     (hmeta : readMetadata cfg header = some (0, idx))
     (hgood : ∀ r ∈ good, GoodRec cfg header.length idx r) (hbad : BadRec header.length bad) :
-    (load cfg header (good ++ bad :: rest) k).status = .ok ∧
-    (load cfg header (good ++ bad :: rest) k).chunks.flatten = good.map (rowOf cfg idx) := by
+    (load cfg header (good ++ bad :: rest) k).status = .errReader ∧
+    ∃ m, m ≤ good.length ∧
+      (load cfg header (good ++ bad :: rest) k).chunks.flatten = (good.take m).map (rowOf cfg idx) := by
   unfold load
   rw [hmeta]
   simp only [bne_self_eq_false, Bool.false_eq_true, if_false]
-  exact loadLoop_truncated cfg header.length idx k hk hcfg.tz hcfg.noBool bad rest hbad _ good (by omega) hgood
+  exact loadLoop_malformed cfg header.length idx k hk hcfg.tz hcfg.noBool bad rest hbad _ good (by omega) hgood
 
-/-! ## the full statement is false of the code -/
-
-def isPanic : Status → Bool
-  | .panicNil | .panicSlice | .panicOther => true
-  | _ => false
-
-def isBlank (r : Rec) : Bool := r == [[]]
-
-/-- C33 as stated: whenever no error is reported every data row (non-blank record) has been handed
-    to the writer — and the loader does not crash -/
-def C33_full : Prop :=
-  ∀ (cfg : Config) (header : Rec) (records : List Rec) (k : Nat), 1 ≤ k →
-    isPanic (load cfg header records k).status = false ∧
-    ((load cfg header records k).status = .ok →
-      ((load cfg header records k).chunks.map List.length).sum = (records.filter (fun r => !isBlank r)).length)
+/-! ## the former counterexamples, now regression examples of the repaired behaviour -/
 
 def cfgTs : Config :=
   { fmt := .timestamp, tz := .zone Mkts.Time.utc, schema := [(['V'], .i64)], isVariable := false }
 def hdr : Rec := [['E', 'p', 'o', 'c', 'h'], ['V']]
 
-/-- three rows, the second has an extra field: one row is loaded, `ok`, nothing reported -/
+/-- three rows, the second has an extra field (before the repair: `ok` with one row loaded) -/
 def silentFile : List Rec := [[['1'], ['1', '0']], [['2'], ['2', '0'], ['9']], [['3'], ['3', '0']]]
-
-theorem C33_cex_silent_run :
-    load cfgTs hdr silentFile 1000000 = ⟨.ok, [[⟨1, 0, [10]⟩]]⟩ := by decide +kernel
-
-/-- an unreadable time field in the second row: nil dereference, also nothing loaded -/
+/-- an unreadable time field in the second row (before the repair: nil dereference) -/
 def panicFile : List Rec := [[['1'], ['1', '0']], [['a', 'b', 'c'], ['2', '0']]]
-
-theorem C33_cex_panic_run : load cfgTs hdr panicFile 1000000 = ⟨.panicNil, []⟩ := by decide +kernel
-
-theorem C33_cex_silent : ¬ C33_full := by
-  intro h
-  have h2 := (h cfgTs hdr silentFile 1000000 (by decide)).2
-  rw [C33_cex_silent_run] at h2
-  exact absurd (h2 rfl) (by decide)
-
-theorem C33_cex_panic : ¬ C33_full := by
-  intro h
-  have h1 := (h cfgTs hdr panicFile 1000000 (by decide)).1
-  rw [C33_cex_panic_run] at h1
-  exact absurd h1 (by decide)
-
-/-- `timeFormat: timestamp` without a `timeZone`: `Time.In(nil)` panics on the first row -/
-theorem C33_cex_timestamp_no_zone :
-    load { cfgTs with tz := .empty } hdr [[['1'], ['1', '0']]] 1000000 = ⟨.panicOther, []⟩ := by
-  decide +kernel
 
 def cfgLay : Config :=
   { fmt := .layout, tz := .zone Mkts.Time.utc, schema := [], isVariable := true }
@@ -138,14 +152,22 @@ def t2 : Str := "20161230 21:37:58 140000".toList
 def t3 : Str := "20161230 21:37:59".toList
 def short : Str := "2016".toList
 
-/-- rows in the plain, the extended ("nanosecond extension") and again the plain time format:
-    loaded completely with chunk size 1, nil dereference with chunk size 3 — the `formatAdj` state
-    is per chunk; and a short time field after the tuning slices out of range -/
-theorem C33_cex_chunk_dependent :
+theorem C33_examples_after_repair :
+    load cfgTs hdr silentFile 1000000 = ⟨.errReader, []⟩ ∧
+    load cfgTs hdr panicFile 1000000 = ⟨.errTime, []⟩ ∧
+    -- `timeFormat: timestamp` without a zone (before: Time.In(nil) panic): UTC
+    load { cfgTs with tz := .empty } hdr [[['1'], ['1', '0']]] 1000000 = ⟨.ok, [[⟨1, 0, [10]⟩]]⟩ ∧
+    -- a 4-character time field after the format was tuned to a 7-character suffix (before: slice panic)
+    (load cfgLay [['E', 'p', 'o', 'c', 'h']] [[t2], [short]] 3).status = .errTime := by
+  decide +kernel
+
+/-- NOT changed by the repairs: the tuning state of the time format is per chunk, so a file mixing
+    plain and extended time fields is loaded with chunk size 1 and rejected (with an error, no
+    longer a crash) with chunk size 3.  Both outcomes satisfy the property. -/
+theorem C33_tuning_is_per_chunk :
     (load cfgLay [['E', 'p', 'o', 'c', 'h']] [[t1], [t2], [t3]] 1).status = .ok ∧
     ((load cfgLay [['E', 'p', 'o', 'c', 'h']] [[t1], [t2], [t3]] 1).chunks.map List.length).sum = 3 ∧
-    (load cfgLay [['E', 'p', 'o', 'c', 'h']] [[t1], [t2], [t3]] 3).status = .panicNil ∧
-    (load cfgLay [['E', 'p', 'o', 'c', 'h']] [[t2], [short]] 3).status = .panicSlice := by
+    (load cfgLay [['E', 'p', 'o', 'c', 'h']] [[t1], [t2], [t3]] 3).status = .errTime := by
   decide +kernel
 
 /-! ## non-vacuity: a two-row file satisfying every hypothesis of `C33_partial` -/
